@@ -3,6 +3,7 @@ receiver-type inference and call resolution.  Pure ``ast``.
 """
 import ast
 import builtins
+import json
 import os
 
 
@@ -75,8 +76,9 @@ class Program:
     """All modules directly under <repo>/file_builder (tests and samples
     are user-side code and are excluded)."""
 
-    def __init__(self, repo):
+    def __init__(self, repo, anchors='default'):
         self.repo = repo
+        self.renamed = {}
         self.pkgdir = os.path.join(repo, PKG)
         if not os.path.isdir(self.pkgdir):
             raise AnalysisError('package directory missing: ' + self.pkgdir)
@@ -111,6 +113,11 @@ class Program:
                 for c in ast.iter_child_nodes(n):
                     self._parents[id(c)] = n
         self._check_supported()
+        if anchors == 'default':
+            anchors = os.path.join(os.path.dirname(os.path.dirname(
+                os.path.abspath(__file__))), 'anchors.json')
+        if anchors and os.path.exists(anchors):
+            self._apply_aliases(json.load(open(anchors))['functions'])
         self._infer()
 
     # ------------------------------------------------------------------
@@ -179,6 +186,50 @@ class Program:
                         'nested def/class in %s:%d' % (f.file, n.lineno))
 
     # ------------------------------------------------------------------
+    def _apply_aliases(self, canon):
+        """Recognise renamed functions: a canonical function that is missing
+        is matched, inside its class, with a function whose name is new and
+        whose structural fingerprint is (uniquely) close; the Func then
+        answers to its canonical name.  Everything else about resolution
+        keeps using the names in the source."""
+        missing = [q for q in canon if q not in self.funcs]
+        if not missing:
+            return
+        extra = [q for q in self.funcs if q not in canon]
+        fps = {q: fingerprint(self, self.funcs[q]) for q in extra}
+        # names that changed on either side say nothing about similarity
+        # (renamed functions call each other under their new names)
+        unstable = {q.split('.')[-1] for q in missing} | \
+            {q.split('.')[-1] for q in extra}
+        pairs = []
+        for m in missing:
+            cm = dict(canon[m])
+            cm['intl'] = [n for n in cm['intl'] if n not in unstable]
+            for x in extra:
+                fx = dict(fps[x])
+                if fx['cls'] != cm['cls'] or fx['static'] != cm['static']:
+                    continue
+                fx['intl'] = [n for n in fx['intl'] if n not in unstable]
+                pairs.append((_similarity(cm, fx), m, x))
+        pairs.sort(reverse=True)
+        used_m, used_x = set(), set()
+        for sc, m, x in pairs:
+            if m in used_m or x in used_x:
+                continue
+            rivals = [s2 for s2, m2, x2 in pairs
+                      if (m2 == m and x2 != x and x2 not in used_x) or
+                      (x2 == x and m2 != m and m2 not in used_m)]
+            second = max(rivals) if rivals else 0.0
+            if sc >= 0.72 and sc - second >= 0.12:
+                used_m.add(m)
+                used_x.add(x)
+                fobj = self.funcs.pop(x)
+                self.renamed[m] = x
+                fobj.qualname = m
+                fobj.source_name = fobj.name
+                fobj.name = m.split('.')[-1]
+                self.funcs[m] = fobj
+
     def parent(self, node):
         return self._parents.get(id(node))
 
@@ -621,3 +672,48 @@ CONTAINER_METHODS = {
     'popitem', 'union', 'intersection', 'difference', 'issubset', 'reverse',
     'info', 'warning', 'error', 'debug', 'exception',
 }
+
+
+def fingerprint(prog, f):
+    ext = []
+    intl = []
+    attrs = set()
+    for n in ast.walk(f.node):
+        if isinstance(n, ast.Call):
+            fn = n.func
+            d = prog.dotted(fn, f) if isinstance(
+                fn, (ast.Name, ast.Attribute)) else None
+            if d and not d.startswith(('pkg:', 'glob:')):
+                ext.append(d)
+            elif isinstance(fn, ast.Attribute):
+                intl.append(fn.attr)
+            elif isinstance(fn, ast.Name):
+                intl.append(fn.id)
+        elif isinstance(n, ast.Attribute) and isinstance(n.value, ast.Name) \
+                and n.value.id == f.self_name:
+            attrs.add(n.attr)
+    kinds = {}
+    for n in ast.walk(f.node):
+        if isinstance(n, ast.stmt):
+            k = type(n).__name__
+            kinds[k] = kinds.get(k, 0) + 1
+    return {'cls': f.cls, 'static': f.is_static, 'nparams': len(f.params),
+            'ext': sorted(ext), 'intl': sorted(intl),
+            'attrs': sorted(attrs), 'kinds': kinds}
+
+
+def _jac(a, b):
+    from collections import Counter
+    ca, cb = Counter(a), Counter(b)
+    inter = sum((ca & cb).values())
+    union = sum((ca | cb).values())
+    return 1.0 if union == 0 else inter / union
+
+
+def _similarity(a, b):
+    ka = [k for k, v in a['kinds'].items() for _ in range(v)]
+    kb = [k for k, v in b['kinds'].items() for _ in range(v)]
+    s = (0.3 * _jac(a['ext'], b['ext']) + 0.25 * _jac(a['intl'], b['intl']) +
+         0.2 * _jac(a['attrs'], b['attrs']) + 0.15 * _jac(ka, kb) +
+         0.1 * (1.0 if a['nparams'] == b['nparams'] else 0.0))
+    return s
